@@ -22,7 +22,7 @@ EXPLANATION = (
     'the literal views print is what the parser compares with, and clones do '
     'not inherit lookup caches.  '
     'Losslessness of each view over all specs and DNAs is not decided.')
-FLOORS = {'C12.a': 4, 'C12.b': 2, 'C12.c': 3, 'C12.d': 2, 'C12.e': 1}
+FLOORS = {'C12.a': 4, 'C12.b': 2, 'C12.c': 3, 'C12.d': 2, 'C12.e': 1, 'C12.f': 2}
 FILES = ['pyglove/core/geno/base.py', 'pyglove/core/geno/categorical.py',
          'pyglove/ext/evolution/mutators.py', 'pyglove/ext/evolution/recombinators.py']
 G = 'pyglove.core.geno.'
@@ -255,6 +255,66 @@ def rule_d(ctx):
     raise AnalysisError(f'only {n} recombine functions found')
 
 
+def rule_f(ctx):
+  """Identity of decision points and lookup by it:
+  (1) the id of a sub-space under a categorical parent always carries the
+  conditional key [=i/n] (no shortcut for one-candidate choices: the child
+  would share its parent's id and the views by id would merge two decisions);
+  (2) a lookup with a decision point / id / name as key is answered from the
+  id and name tables only, so every key form gives the same answer."""
+  idx = ctx.index
+  c = idx.cls(G + 'base.DNASpec')
+  f = c.methods.get('id')
+  g = C.cfg_of(f.node)
+  problems = []
+  sp = [k for k in g.nodes if k.kind == 'test' and A.unparse(k.ast) == 'self.is_space']
+  ck = [k for k in g.nodes if k.ast is not None and k.kind != 'test' and any(
+      (A.call_name(cl) or '').endswith('ConditionalKey') for cl in k.calls())]
+  stores = [k for k in g.nodes if k.kind == 'stmt' and isinstance(k.ast, ast.Assign)
+            and any(A.dotted(t) == 'self._id' for t in k.ast.targets)]
+  if not sp or not ck:
+    problems.append('the sub-space branch or the conditional key vanished')
+  else:
+    for m, lab in sp[0].succ:
+      if lab != 'true':
+        continue
+      # from the is_space outcome, every path to a store of the id passes the conditional key
+      for st in stores:
+        if st in ck:
+          continue
+        seen, _ = g.reach(m, blocked_nodes={k.id for k in ck}, follow_exc=False)
+        seen.add(m.id)
+        if st.id in seen and m not in ck:
+          problems.append(f'a sub-space can get its id (line {st.lineno}) without the conditional key: it then '
+                          f'shares the id of its parent choice')
+    for k in ck:
+      for cl in k.calls():
+        if (A.call_name(cl) or '').endswith('ConditionalKey'):
+          args = [A.unparse(a) for a in cl.args]
+          if args != ['self.index', 'len(parent.candidates)']:
+            problems.append(f'conditional key built from {args}')
+  ctx.ob('C12.f', f.fq, not problems,
+         'the id of a sub-space always contains the conditional key of its position under the parent choice', f.loc,
+         '; '.join(problems))
+  f = idx.func(G + 'base.DNA.__getitem__')
+  g = C.cfg_of(f.node)
+  problems = []
+  for k in g.nodes:
+    if k.kind != 'return' or k.ast.value is None:
+      continue
+    v = k.ast.value
+    vals = [v]
+    if isinstance(v, ast.Name):
+      vals = [val for _, val in D.reaching_defs(g, k, v.id) if val is not None] or [v]
+    for val in vals:
+      t = A.unparse(val)
+      if not (t.startswith('self.children[') or '_decision_by_id' in t or 'named_decisions' in t):
+        problems.append(f'line {k.lineno}: returns `{t}`, which is not read from the children / id / name tables')
+  ctx.ob('C12.f', f.fq, not problems,
+         'DNA[key] is answered from the children list, the id table or the name table only '
+         '(every key form of one decision gives the same answer)', f.loc, '; '.join(problems))
+
+
 def run(ctx):
   ctx.consult(*FILES)
   rule_a(ctx)
@@ -262,4 +322,5 @@ def run(ctx):
   rule_c(ctx)
   rule_d(ctx)
   rule_e(ctx)
+  rule_f(ctx)
   ctx.assume('losslessness of each view over all specs/DNAs is not decided')
